@@ -3,19 +3,41 @@
    Each TLC-enumerated history of concurrent requests (ends: ok, retried, upstream reset, timeout, client gone) is
    realised on the in-process MOSN against clusters with thresholds {0,1,2}; the real Resource.Cur() values and
    active gauges sampled at stable points are validated by TLC against the truth seen by the scripted upstream.
+   Cluster configuration updates through the cluster manager (Breaker!Update, BreakerOps Update) are an operation of the
+   histories: the books and thresholds are always read from the cluster the cluster manager exposes at that moment.
    The single-request lifecycle cases of C03 additionally check the downstream gauge on every guided schedule."""
 import json, os, random
 import vlib
 import lifecycle_common as lc
 
 LEVEL = "model_checking"
+UPD_QUICK = {"http1": 144, "http2": 48, "bolt": 48, "tcp": 48}   # histories with a cluster update replayed in the quick tier
+
+
+def switched(evs, st, line, kind):
+    """off / on if, between the start of the run (event number st) and the failing event, an update switched the threshold of
+    the resource the mismatch kind is about off (n -> 0) or on (0 -> n); None otherwise."""
+    res = "retry" if "retr" in kind else "conn" if kind.startswith("tcp-") else "req" if "request" in kind else None
+    if res is None or st < 1:
+        return None
+    run = evs[st - 1]
+    cur = {"req": run.get("maxreq", 0), "retry": run.get("maxretry", 0), "conn": run.get("maxconn", 0)}
+    out = None
+    for e in evs[st:line]:
+        if e["ev"] in ("update", "tupdate"):
+            new = {"req": e.get("maxreq", cur["req"]), "retry": e.get("maxretry", cur["retry"]), "conn": e.get("maxconn", cur["conn"])}
+            if (cur[res] == 0) != (new[res] == 0):
+                out = "off" if new[res] == 0 else "on"
+            cur = new
+    return out
 
 
 def run(ctx):
     q = ctx.quick()
     for cfg in ("Breaker.cfg", "Breaker_unlimited.cfg"):
         ctx.add_tlc(vlib.run_tlc(ctx, "cluster", "Breaker", cfg))
-    for d in ("Breaker_defect1.cfg", "Breaker_defect2.cfg"):
+    for d in ("Breaker_defect1.cfg", "Breaker_defect2.cfg", "Breaker_defect_UpdateCopiesCounters.cfg",
+              "Breaker_defect_UncountedWhileUnlimited.cfg"):
         if vlib.run_tlc(ctx, "cluster", "Breaker", d, expect_ok=False)["ok"]:
             raise vlib.Inconclusive("Breaker model does not reject " + d)
     raw = os.path.join(ctx.tmp, "ops.jsonl")
@@ -24,6 +46,17 @@ def run(ctx):
     rng = random.Random(ctx.seed)
     rng.shuffle(cases)
     picked = cases[:240] if q else cases
+    # cluster configuration updates (through the cluster manager, hosts inherited or rebuilt, thresholds unchanged / raised /
+    # lowered / switched off / on) as an operation of the histories: at every position of the start/finish interleavings of
+    # 2 requests (Breaker!Update is the contract: an admission taken before an update is given back after it on the books the
+    # cluster then exposes)
+    rawu = os.path.join(ctx.tmp, "opsu.jsonl")
+    ucfg = "BreakerOpsUpd.cfg" if q else "BreakerOpsUpd_thorough.cfg"
+    ctx.add_tlc(vlib.run_tlc(ctx, "cluster", "BreakerOps", ucfg, workers=1, cases_to=rawu, timeout=1200))
+    ucases = vlib.read_jsonl(rawu)
+    rng.shuffle(ucases)
+    upicked = ucases[:UPD_QUICK["http1"]] if q else ucases[:3000]
+    picked = picked + upicked
     sampled4 = 0
     if not q:
         raw4 = os.path.join(ctx.tmp, "ops4.jsonl")
@@ -36,7 +69,9 @@ def run(ctx):
     # the same histories over the multiplexed protocols: HTTP/2 (an exchange fails by RST_STREAM) and bolt (xprotocol
     # multiplex pool; the upstream-reset ending is played as a plain answer there)
     for proto, k in (("http2", 120 if q else 1500), ("bolt", 120 if q else 1500)):
-        sub = rng.sample(cases, min(len(cases), k))
+        usub = rng.sample(ucases, min(len(ucases), UPD_QUICK[proto] if q else 800))
+        sub = rng.sample(cases, min(len(cases), k)) + usub
+        ctx.cov.setdefault("update_histories", {"http1": len(upicked)})[proto] = len(usub)
         t2, _ = lc.run_sharded(ctx, "c10", sub, shards=8 if q else 14, extra_args=["-proto", proto], tag="_" + proto)
         traces += t2
         ctx.cov.setdefault("protocols", {"http1": len(picked)})[proto] = len(sub)
@@ -46,6 +81,13 @@ def run(ctx):
     tcases = vlib.read_jsonl(rawt)
     rng.shuffle(tcases)
     tpicked = tcases[:96] if q else tcases
+    rawtu = os.path.join(ctx.tmp, "tcpopsu.jsonl")
+    ctx.add_tlc(vlib.run_tlc(ctx, "cluster", "BreakerOps", "BreakerTcpOpsUpd.cfg", workers=1, cases_to=rawtu))
+    tucases = vlib.read_jsonl(rawtu)
+    rng.shuffle(tucases)
+    tupicked = tucases[:UPD_QUICK["tcp"]] if q else tucases
+    tpicked = tpicked + tupicked
+    ctx.cov["update_histories"]["tcp"] = len(tupicked)
     ttraces, _ = lc.run_sharded(ctx, "c10", tpicked, shards=12 if q else 14, extra_args=["-mode", "tcp"], tag="_tcp")
     traces = traces + ttraces
     # guided part: the single-request schedules of Scenarios.tla that end a request inside the retry window (an admitted
@@ -76,6 +118,8 @@ def run(ctx):
     nruns = sum(1 for e in evs if e["ev"] in ("run", "trun"))
     ctx.cov["traces_validated_against_impl"] += nruns
     ctx.cov["evaluations"] += sum(1 for e in evs if e["ev"] in ("sample", "trip", "tsample", "topen"))
+    ctx.cov["cluster_updates_with_requests_in_flight"] = sum(1 for i, e in enumerate(evs[:-1]) if e["ev"] in ("update", "tupdate") and (
+        evs[i + 1].get("inflight", 0) > 0 or (evs[i + 1]["ev"] == "tsample" and any(x.get("truth", 0) > 0 for x in evs[i + 1:i + 4]))))
     ctx.cov["distinct_nontrivial"] = nruns
     ctx.cov["states"] += v["distinct"]; ctx.cov["transitions"] += v["generated"]
     first_end = next((i for i, e in enumerate(evs) if e["ev"] == "sample" and e.get("why") == "end"), 10)
@@ -96,9 +140,16 @@ def run(ctx):
         if kind.startswith("retries"):
             thr = "max_retries=%s" % (runev or {}).get("maxretry")
         proto = (runev or {}).get("proto", "http1")
-        sig = "C10:%s%s:%s" % ("" if proto == "http1" else proto + ":", kind, thr)
+        upd = next((evs[j - 1] for j in range(line, st, -1) if evs[j - 1]["ev"] in ("update", "tupdate")), None)
+        after_upd = ":after-update=%s/%s" % (upd["kind"], upd["to"]) if upd else ""
+        sig = "C10:%s%s:%s%s" % ("" if proto == "http1" else proto + ":", kind, thr, after_upd)
         if kind.startswith("tcp-"):
-            sig = "C10:%s:%s" % (kind, e.get("cluster", ""))
+            sig = "C10:%s:%s%s" % (kind, e.get("cluster", ""), after_upd)
+        sw = switched(evs, st, line, kind)
+        if sw:      # input class of its own whatever the protocol and the update entry: the threshold of this resource was switched
+                    # off / on by an update of this history (5ab5b615d: the resource did not count while its threshold was 0)
+            sig = "C10:threshold-switched-with-admissions-outstanding:%s:%s" % (
+                "retries" if "retr" in kind else "connections" if kind.startswith("tcp-") else "requests", sw)
         end = next((j for j in range(line, len(evs) + 1) if evs[j - 1]["ev"] in ("run", "trun") and j > line), min(len(evs), line + 30))
         vlib.report_failure(ctx, sig, dict(event=e, after=why, run=runev, run_trace=evs[st - 1:end]))
     for line, kinds in sorted(mm.items()):
@@ -111,7 +162,10 @@ def run(ctx):
     ctx.cov["rule"] = ("every interleaving of start/finish of 3 concurrent requests x 5 ways to end (ok, retried after 503, upstream "
                        "reset, global timeout, client disconnect) from BreakerOps.tla (%d histories; quick: %d chosen by VERIF_SEED), "
                        "rotated over clusters with (max_requests,max_retries) in {(0,0),(2,0),(2,1),(1,1)}; books sampled after every "
-                       "operation" % (len(cases), len(picked)))
+                       "operation; plus %d histories of 2 requests with a cluster configuration update (AddOrUpdatePrimaryCluster / "
+                       "AddOrUpdateClusterAndHost x thresholds same/up/down/off/on) at every position (quick: %s chosen by VERIF_SEED), "
+                       "books and thresholds read from the cluster snapshot current after every operation"
+                       % (len(cases), len(picked) - len(upicked), len(ucases), ctx.cov["update_histories"]))
     ctx.assumptions += ["HTTP/1, HTTP/2 and bolt (multiplex) pools; the `connections` resource is never incremented by any pool (limits on connections are "
                         "enforced on the pools' own counts), so only its non-negativity is checked",
                         "a sample waits up to 600 ms for the books to settle before it is taken"]
